@@ -245,6 +245,11 @@ func main() {
 			{"native-2inst-2keys-padding", fleet.Cfg{N: 2, Native: true, Keys: []string{"d/a", "d/b"}, Vals: []string{"x", "y"}, Padding: true, Silent: -1}, 5},
 		}
 	}
+	// uploads that fail as a whole (storage outage), closure under the sync loop's own upload rule
+	od := ev.Pick(r, 4, 5)
+	runs = append(runs,
+		run{"native-2inst-outage-looprule", fleet.Cfg{N: 2, Native: true, Keys: []string{"d/a"}, Vals: []string{"x", "y"}, Silent: -1, Outage: true, LoopRule: true}, od},
+		run{"shadow-2inst-outage-looprule", fleet.Cfg{N: 2, Native: false, Keys: []string{"d/a"}, Vals: []string{"x", "y"}, Silent: -1, Outage: true, LoopRule: true}, od})
 	for _, rn := range runs {
 		if r.Expired() {
 			r.AddPart(&ev.Part{Name: rn.name, Engine: "E2", Exhaustive: false, Bound: "not started: time budget used up"})
